@@ -52,6 +52,9 @@ pub mod token;
 pub mod util;
 /// [Variable-length integers](https://www.rfc-editor.org/rfc/rfc9000.html#name-variable-length-integer-enc).
 pub mod varint;
+/// Verification hooks (controlled-scheduler pre-emption points).
+#[cfg(genmeta_gm_quic_verif)]
+pub mod verif;
 
 /// The epoch of sending, usually been seen as the index of spaces.
 #[derive(Clone, Copy, PartialEq, Eq, PartialOrd, Ord, Debug)]
